@@ -2,6 +2,7 @@ import PyYetiVerif.Props.C08
 import PyYetiVerif.Props.C08Init
 import PyYetiVerif.Props.C08Inst
 import PyYetiVerif.Props.C08Api
+import PyYetiVerif.Props.C08Branches
 #print axioms PyYetiVerif.C08.gen_invariant
 #print axioms PyYetiVerif.C08.visible_eq_batch
 #print axioms PyYetiVerif.C08.history_independent
@@ -37,3 +38,5 @@ import PyYetiVerif.Props.C08Api
 #print axioms PyYetiVerif.C08.latest_generator_wins
 #print axioms PyYetiVerif.C08.second_finalize_fails
 #print axioms PyYetiVerif.C08.resumed_generator_unaffected
+#print axioms PyYetiVerif.C08.generated_branches_ok
+#print axioms PyYetiVerif.C08.request_writes_own_column
